@@ -34,6 +34,54 @@ def run_codes_model(wd, numwords, codes_len):
     return r, cmps, codes, lists[0]
 
 
+def nameplate_completion_cases(wd, quick):
+    """NameplateInput.tla enumerated by TLC: -> (TlcResult, {history (tuple of frozensets of str): {prefix: set of completions}})"""
+    uni = ["1", "12", "3"] if quick else ["1", "12", "3", "31"]
+    consts = "Universe <- c_U\n  Typed <- c_P\n  MaxHistory = %d" % (2 if quick else 3)
+
+    def seq(s_):
+        return "<<" + ", ".join('"%s"' % ch for ch in s_) + ">>"
+    with open(wd.file("MC_NPC.tla"), "w") as f:
+        f.write("---- MODULE MC_NPC ----\nEXTENDS NameplateInput\nc_U == {%s}\nc_P == {%s}\n"
+                "ASSUME OfferedAreListed\nASSUME ListedAreOffered\nASSUME StaleNeverOffered\nASSUME ReportCases\n====\n"
+                % (", ".join(seq(u) for u in uni), ", ".join(seq(p_) for p_ in ["", "1", "12", "3", "4"])))
+    with open(wd.file("MC_NPC.cfg"), "w") as f:
+        f.write("SPECIFICATION Spec\nCONSTANTS\n  %s\nCHECK_DEADLOCK FALSE\n" % consts)
+    r = tlc.run("MC_NPC.tla", "MC_NPC.cfg", cwd=wd.path, workers=4, timeout=1800)
+    if not r.ok:
+        raise RuntimeError("TLC failed on NameplateInput.tla: %s" % (r.violated or r.error or r.stdout[-1500:]))
+    cases = {}
+    for (_, h, p_, comps) in tlc.printed_tuples(r.stdout, "NPC"):
+        hist = tuple(frozenset("".join(n) for n in listing) for listing in h)
+        cases.setdefault(hist, {})["".join(p_)] = {"".join(c) for c in comps}
+    return r, cases
+
+
+def run_nameplate_history(hist, prefixes):
+    """one history of server listings on a real wormhole doing input_code(): -> [{prefix: completions or exception}] per listing"""
+    from ..mbworld import MailboxWorld
+    w = MailboxWorld(seed=0, clients=(("A", "deferred"),))
+    w.apply({"a": "ConnOpen", "c": "A"})
+    w.apply({"a": "AppInput", "c": "A"})
+    out = []
+    cl = w.clients["A"]
+    for listing in hist:
+        app = w.server.app(cl.appid)
+        app["nameplates"] = {n: {"mailbox": "mbx" + n, "sides": {"0f0f0f0f0f": True}} for n in sorted(listing)}
+        w.apply({"a": "AppHelper", "c": "A", "m": "refresh_nameplates"})
+        w.drain()
+        got = {}
+        for p_ in prefixes:
+            try:
+                got[p_] = set(cl.helper.get_nameplate_completions(p_))
+            except Exception as e:
+                got[p_] = e
+        out.append(got)
+    internal = ["%s:%s:%r" % x for x in w.internal]
+    w.shutdown()
+    return out, internal
+
+
 def run(prop, tier):
     assert prop == "C19"
     quick = tier == "quick"
@@ -123,6 +171,34 @@ def run(prop, tier):
                             {"call": "choose_words", "bytes": bs, "expected": expect(bs), "got": got})
                 break
         cov["samples"].append({"case": "choose_words", "bytes": [7, 200, 31], "expected": expect([7, 200, 31])})
+        # ---------------- 2d. nameplate completion over histories of server listings (NameplateInput.tla)
+        rn, npcases = nameplate_completion_cases(wd, quick)
+        states += rn.distinct
+        transitions += rn.generated
+        cov["tlc_configs"]["NameplateInput"] = {"distinct_states": rn.distinct, "wall_s": round(rn.wall, 1), "histories": len(npcases),
+                                                "cases": sum(len(x) for x in npcases.values())}
+        stop = False
+        for hist, by_prefix in sorted(npcases.items(), key=lambda kv: (len(kv[0]), sorted(map(sorted, kv[0])))):
+            if stop:
+                break
+            prefixes = sorted(by_prefix)
+            try:
+                got, internal = run_nameplate_history(hist, prefixes)
+            except Exception as e:
+                got, internal = [], ["harness: %r" % (e,)]
+            evaluations += len(prefixes)
+            distinct.add(("npc", tuple(tuple(sorted(x)) for x in hist)))
+            final = got[-1] if got else {}
+            for p_ in prefixes:
+                if internal or final.get(p_) != by_prefix[p_]:
+                    v.violation({"clause": "nameplate-completions", "history_length": len(hist)},
+                                "after the listings %s, get_nameplate_completions(%r) = %r, spec (NameplateInput.Completions): %r %s" % (
+                                    [sorted(x) for x in hist], p_, sorted(final[p_]) if isinstance(final.get(p_), set) else final.get(p_),
+                                    sorted(by_prefix[p_]), internal[:2]),
+                                {"call": "get_nameplate_completions", "history": [sorted(x) for x in hist], "prefix": p_,
+                                 "expected": sorted(by_prefix[p_])})
+                    stop = True
+                    break
         # ---------------- 2c. allocation end to end: nameplate + "-" + words, exactly the requested number
         for n in range(1, 5):
             for np in ("4", "17", "512"):
